@@ -38,10 +38,10 @@ package payment
 //@ ensures [authorised] effects != old(effects) ==> authorised("pool_addNode", wallet, nonce) && len(authArgs) == 1 && typeis(authArgs[0], string) && authArgs[0].(string) == nodeID
 //@ ensures [refused-error]    !(authOK && nonceOK) ==> typeis(err, pool.VerifyFailedError)
 //@ ensures [refused-no-trace] !(authOK && nonceOK) ==> effects == old(effects) && p.NonceStore.nonce == old(p.NonceStore.nonce)
-//@                              && p.AccountStore.credit == old(p.AccountStore.credit) && p.AccountStore.cell == old(p.AccountStore.cell)
+//@                              && store.sameCredit(p.AccountStore) && p.AccountStore.linked == old(p.AccountStore.linked) && p.AccountStore.acct == old(p.AccountStore.acct)
 //@ ensures [zero-sum] {C01}   p.AccountStore.total == old(p.AccountStore.total)
 
-//@ pure spendableOf(s store.BalanceStore, a string) int = s.credit[a] + s.deposit[a]
+//@ pure spendableOf(s store.BalanceStore, a string) int = s.acredit[store.Account(a)] + s.adeposit[store.Account(a)]
 
 //@ func (*PaymentService).Withdraw
 //@ property C01 C04 C06 C07
@@ -49,25 +49,25 @@ package payment
 //@ ensures [authorised]       {C04} effects != old(effects) ==> authorised("pool_withdraw", wallet, nonce) && len(authArgs) == 0
 //@ ensures [refused-error]    {C06} !(authOK && nonceOK) ==> typeis(err, pool.VerifyFailedError)
 //@ ensures [refused-no-trace] {C06 C07} !(authOK && nonceOK) ==> effects == old(effects) && p.NonceStore.nonce == old(p.NonceStore.nonce)
-//@                              && paid == old(paid) && p.BalanceStore.credit == old(p.BalanceStore.credit)
-//@ ensures [disabled]         {C07} authOK && nonceOK && p.Settle == nil ==> err == ErrWithdrawDisabled && paid == old(paid) && p.BalanceStore.credit == old(p.BalanceStore.credit)
-//@ ensures [below-minimum]    {C07} p.WithdrawMin != nil && old(spendableOf(p.BalanceStore, wallet)) < bigval(p.WithdrawMin) ==> err != nil && paid == old(paid) && p.BalanceStore.credit == old(p.BalanceStore.credit)
+//@                              && paid == old(paid) && store.sameCredit(p.BalanceStore)
+//@ ensures [disabled]         {C07} authOK && nonceOK && p.Settle == nil ==> err == ErrWithdrawDisabled && paid == old(paid) && store.sameCredit(p.BalanceStore)
+//@ ensures [below-minimum]    {C07} p.WithdrawMin != nil && old(spendableOf(p.BalanceStore, wallet)) < bigval(p.WithdrawMin) ==> err != nil && paid == old(paid) && store.sameCredit(p.BalanceStore)
 //@ ensures [minimum-error]    {C07} typeis(err, WithdrawBalanceMinimumError) ==> p.WithdrawMin != nil && old(spendableOf(p.BalanceStore, wallet)) < bigval(p.WithdrawMin)
 //@                                    && bigval(err.(WithdrawBalanceMinimumError).Balance) == old(spendableOf(p.BalanceStore, wallet))
 //@ ensures [pays-exactly]     {C07} err == nil ==> paid == upd(old(paid), wallet, old(paid)[wallet] +
 //@                                    ite(p.WithdrawFee != nil, feeOf(old(spendableOf(p.BalanceStore, wallet))), old(spendableOf(p.BalanceStore, wallet))))
-//@ ensures [nothing-left]     {C07} err == nil ==> p.BalanceStore.credit == upd(old(p.BalanceStore.credit), wallet, 0)
+//@ ensures [nothing-left]     {C07} err == nil ==> p.BalanceStore.acredit == upd(old(p.BalanceStore.acredit), store.Account(wallet), 0) && p.BalanceStore.tcredit == old(p.BalanceStore.tcredit)
 //@ ensures [failure-pays-nothing] {C07} err != nil ==> paid == old(paid)
 //@ ensures [failure-keeps-balance] {C07} err != nil && (p.BalanceStore.loglen == old(p.BalanceStore.loglen) || p.BalanceStore.loglen == old(p.BalanceStore.loglen) + 2)
-//@                                    ==> p.BalanceStore.credit == old(p.BalanceStore.credit)
-//@ ensures [ledger]           {C01} (err == nil ==> p.BalanceStore.total == old(p.BalanceStore.total) - old(p.BalanceStore.credit[wallet]))
+//@                                    ==> store.sameCredit(p.BalanceStore)
+//@ ensures [ledger]           {C01} (err == nil ==> p.BalanceStore.total == old(p.BalanceStore.total) - old(p.BalanceStore.acredit[store.Account(wallet)]))
 //@                                    && (err != nil && (p.BalanceStore.loglen == old(p.BalanceStore.loglen) || p.BalanceStore.loglen == old(p.BalanceStore.loglen) + 2)
 //@                                        ==> p.BalanceStore.total == old(p.BalanceStore.total))
 //@ ensures [unlocked]         {C07 C10} !held(p.mu)
 //@ callreq BalanceStore [critical-section] {C07 C10} : held(p.mu)
 //@ callreq PaymentService.Settle [critical-section] {C07 C10} : held(p.mu)
-//@ witness credit = p.BalanceStore.credit[wallet]
-//@ witness deposit = p.BalanceStore.deposit[wallet]
+//@ witness credit = p.BalanceStore.acredit[store.Account(wallet)]
+//@ witness deposit = p.BalanceStore.adeposit[store.Account(wallet)]
 //@ witness minSet = p.WithdrawMin != nil
 //@ witness min = bigval(p.WithdrawMin)
 //@ witness feeSet = p.WithdrawFee != nil
